@@ -59,14 +59,17 @@ from vlib.core import Family, Program, Harness
 # the rule model (documented rules only)
 # ----------------------------------------------------------------------------------------------------
 F = collections.namedtuple("F", "name ty attr")      # name None for positional fields
-ERR_TYPES = {"src", "box", "boxss", "t"}
+ERR_TYPES = {"src", "box", "boxss", "t", "ubt"}
 RUST_TY = {"src": "Src", "box": "Box<dyn Error + 'static>", "boxss": "Box<dyn Error + Send + Sync + 'static>",
            "i32": "i32", "bt": "Backtrace", "t": "T", "u": "U",
            # the same std type under other path spellings: a field type is "Backtrace-named" by its LAST path segment
            # (doc/error.md: "the type of exactly one of the fields is called `Backtrace`"); `bt` = `pub use std::backtrace as bt;` of common.rs
            "btq": "std::backtrace::Backtrace", "btqq": "::std::backtrace::Backtrace", "btm": "bt::Backtrace",
-           "btself": "self::bt::Backtrace"}
-BT_TYPES = {"bt", "btq", "btqq", "btm", "btself"}
+           "btself": "self::bt::Backtrace",
+           # a USER error type that merely happens to be called `Backtrace` (common.rs `trace::Backtrace`): Backtrace-named for the
+           # by-type rules, an ordinary error type otherwise; always written with `not(backtrace)` (or an explicit mark)
+           "ubt": "trace::Backtrace"}
+BT_TYPES = {"bt", "btq", "btqq", "btm", "btself", "ubt"}
 
 
 class Ambiguous(Exception):
@@ -121,6 +124,10 @@ def tuple_candidate(fs):
     bt = backtrace_of("tuple", [(i, f) for i, f in fs if not ign(f)])
     if len(fs) == 1:
         i, f = fs[0]
+        if bt != i and f.ty in BT_TYPES:
+            # sole Backtrace-named field opted out of being the backtrace: docs rule 2 ("not used as the backtrace") says source,
+            # the by-type exclusion of the tuple rule says none
+            raise Unsettled
         if bt == i:
             if f.ty in BT_TYPES:
                 return None          # doc rule 2: no field that is not used as the backtrace
@@ -267,7 +274,15 @@ BACKTRACE_PATHS = [
 BACKTRACE_PATHS_SOLE = [("tuple", (P("btq"),)), ("tuple", (P("btm"),)), ("tuple", (P("btqq"),)), ("tuple", (P("btself"),))]
 # These lists are in BOTH tiers as grouped programs (<= GROUP layouts behind one harness, struct form and variant form each):
 # `grpq_{st,en}_<tag>_<i>`; the failing assertion names the layout.
-QUICK_GROUPS = [("notattr", NOT_ATTR_BESIDE_CANDIDATE), ("multiparam", MULTI_PARAM), ("btpath2", BACKTRACE_PATHS),
+# rule order: "... else a field named `source`" -- whatever its TYPE is called.  A user error type named `Backtrace`, opted out of being
+# the backtrace; the same type under another field name and an explicitly marked tuple field as controls.
+USER_BACKTRACE_NAMED_TYPE = [
+    ("named", (N("source", "ubt", NB), N("other", "i32"))), ("named", (N("other", "i32"), N("source", "ubt", NB))),
+    ("named", (N("other", "ubt", NB), N("code", "i32"))), ("named", (N("other", "ubt", NB), N("source"))),
+    ("named", (N("source", "ubt", NB), N("backtrace", "bt"))), ("named", (N("source", "ubt", NB_NS), N("other"))),
+    ("tuple", (P("ubt", S_NB), P("i32"))),
+]
+QUICK_GROUPS = [("userbt", USER_BACKTRACE_NAMED_TYPE), ("notattr", NOT_ATTR_BESIDE_CANDIDATE), ("multiparam", MULTI_PARAM), ("btpath2", BACKTRACE_PATHS),
                 ("btpath1", BACKTRACE_PATHS_SOLE)]
 
 ATTRS = {"src": [None, S, NS, IGN, NB, B, BS, NB_S, NB_NS], "i32": [None, NS, IGN, NB], "bt": [None, B, NB, IGN, NS]}
@@ -308,6 +323,16 @@ impl fmt::Display for Src {
     fn fmt(&self, _f: &mut fmt::Formatter<'_>) -> fmt::Result { Ok(()) }
 }
 impl Error for Src {}
+
+pub mod trace {
+    /// a user error type that merely happens to be NAMED `Backtrace` (non-zero-sized probe like `Src`)
+    #[derive(Debug)]
+    pub struct Backtrace(pub u8);
+    impl core::fmt::Display for Backtrace {
+        fn fmt(&self, _f: &mut core::fmt::Formatter<'_>) -> core::fmt::Result { Ok(()) }
+    }
+    impl std::error::Error for Backtrace {}
+}
 
 pub type Ret<'a> = Option<&'a (dyn Error + 'static)>;
 
@@ -365,7 +390,7 @@ def value_expr(ty):
     return {"src": "Src(kani::any())", "t": "Src(kani::any())", "box": "Box::new(Src(kani::any()))",
             "boxss": "Box::new(Src(kani::any()))", "i32": "kani::any::<i32>()", "u": "kani::any::<i32>()",
             "bt": "Backtrace::disabled()", "btq": "Backtrace::disabled()", "btqq": "Backtrace::disabled()",
-            "btm": "Backtrace::disabled()", "btself": "Backtrace::disabled()"}[ty]
+            "btm": "Backtrace::disabled()", "btself": "Backtrace::disabled()", "ubt": "trace::Backtrace(kani::any())"}[ty]
 
 
 def ctor(path, shape, fields):
@@ -588,6 +613,7 @@ def singles(tier):
                 add("enum", shape, fs, g)
                 if fs[expect(shape, fs) or 0].ty == "box" or any(f.ty == "box" for f in fs):
                     add("struct", shape, fs, g)       # member access on a Box<dyn Error> field
+    add("struct", "named", (N("source", "ubt", NB), N("other", "t")), "gd")      # generic: the by-name source beside a field of type T
     for shape, fields in VIGN + (VIGN_MORE if tier == "thorough" else []):
         add("enum", shape, fields, vign=True)
     for shape, fields in PROVIDE_BOXED:
